@@ -34,9 +34,21 @@ state of the destination, whatever branch the node came from.
 
 The walk theorems hold for pruning and non-pruning walks alike (the refinement does not look at the irreversible
 height; what a walk does to it is C17). `play_invariant`: `play` with an empty pool keeps the node on the canonical
-state. Not proved here: `play` with a non-empty pool and `playForMiner` against the canonical state (they need the
-commutation of independent transactions), and the induction over whole histories; for those the correspondence
-check and the fresh-replica oracle stand (the registry text says what is partial).
+state.
+
+The refinement layer and the closing induction (helper lemmas in Lemmas/Refine*.lean: the table operations as a "swap
+system" — adjacent independent operations commute, validity included — and what a list of operations can do to a row / a
+key version). `play_refines`: `play` with a NON-EMPTY pool — eviction of the conflicting transactions and their
+dependents, pending members skipped, rolled-back members re-applied — takes "state refines canon(tip) + pool, pool valid"
+to the same at the new tip with the surviving pool; `playForMiner_refines`: the same for the miner's own block (award +
+a prefix of the pool); `doTx_refines`: one admission. `chain_refines` (`EnvOK`, `Inv`, `Op`, `run`, `OpOK` / `HistOK`,
+`step_invariant`, `genesis_inv`, `chain_observables`): after ANY history of submissions, peers' blocks, own blocks and
+walks — refused operations and failing walks included — the node's observable tables are those of the replay of the chain
+genesis..tip on a fresh node followed by the pending pool in admission order. `undo_cancels_apply_history`: walking away
+and back restores the observables. `accepted_block_replayable_refuted`: a block that `play` accepts is NOT always
+accepted by a fresh replica (a pending member that only reads a key an earlier new transaction of the block overwrites is
+skipped by the node) — hence `chain_refines` takes "every chain of the tree can be replayed" as a hypothesis on the
+environment; `accepted_block_replayable_partial`: with `NoStaleMember` it is.
 -/
 namespace XV.C01
 open XV.Chain XV.C02
@@ -1962,7 +1974,8 @@ private theorem blockValid_of_chain (e : Env) (g : St) (hpl : ParentLower e) (bi
 -- ================================================================== the closing induction over histories
 
 /-- the hypotheses on the environment (static: they do not mention the node). Block tree with parent links strictly
-down in height; every registered block is known under its id; every chain of the tree can be replayed on a fresh
+down in height; every registered block is known under its id, its parent is registered, and all blocks descend from one
+root; every chain of the tree can be replayed on a fresh
 node from the base state `g`, with the side conditions of the block theorem (`ChainValid`: the harness feeds blocks that
 replicas accept; that `play` alone does not guarantee this is `accepted_block_replayable_refuted` below); no transaction
 occurs twice on a chain; the ids of block transactions are fresh in `g`; `g` is well-formed and its rows carry the frozen
@@ -1970,6 +1983,10 @@ heights their transactions declare. -/
 structure EnvOK (e : Env) (g : St) : Prop where
   lower : ParentLower e
   blockId : ∀ bi, bi ∈ e.blocks.map (·.1) → (e.block bi).id = bi
+  parentKnown : ∀ bi ∈ e.blocks.map (·.1),
+    (e.block bi).pre = none ∨ ∃ q ∈ e.blocks.map (·.1), (e.block bi).pre = some q
+  oneRoot : ∀ b1 ∈ e.blocks.map (·.1), ∀ b2 ∈ e.blocks.map (·.1),
+    (ancestors e (e.blocks.length + 1) b1).getLast? = (ancestors e (e.blocks.length + 1) b2).getLast?
   chains : ∀ bi, bi ∈ e.blocks.map (·.1) → ChainValid e (ancestors e (e.blocks.length + 1) bi).reverse g
   chainNodup : ∀ bi, bi ∈ e.blocks.map (·.1) → (chainTxs e bi).Nodup
   blockFresh : ∀ bi, bi ∈ e.blocks.map (·.1) → ∀ i ∈ (e.block bi).txs, IdFresh g i
@@ -2009,8 +2026,10 @@ def run (e : Env) (s : St) (ops : List Op) : St := ops.foldl (step e) s
 /-- what is asked of one operation of a history, in the state it is applied to (everything else follows from `EnvOK`
 and the invariant). A submitted transaction that is ACCEPTED is well-formed, cites declared frozen heights, has a fresh
 id and is not already confirmed on the node's chain. Nothing is asked of a peer's block. The node's own block, if
-accepted: coinbase transactions new and without key writes, the others pending, a prefix of the pool. A walk reports
-success, goes to a registered block, and no transaction it re-admits is confirmed on the destination's chain. -/
+accepted: coinbase transactions new and without key writes, the others pending, a prefix of the pool. A walk goes to a
+registered block and, if it succeeds, no transaction it re-admits is confirmed on the destination's chain; a walk that
+FAILS (an undo refused at the irreversible height, a block refused at this ledger height) is covered too: it leaves the
+node at the block it reached, with an empty pool (`inv_walk_fail`). -/
 def OpOK (e : Env) (g : St) (s : St) : Op → Prop
   | .submit lh i => (doTx e s lh i).2 = .ok →
       TxWF e i ∧ StaticFrozen e i ∧ IdFresh g i ∧ i ∉ chainTxs e s.pointer
@@ -2019,8 +2038,8 @@ def OpOK (e : Env) (g : St) (s : St) : Op → Prop
       (∀ i ∈ (e.block bi).txs, (e.tx i).coinbase = false → i ∈ s.pool) ∧
       (∀ i ∈ (e.block bi).txs, (e.tx i).coinbase = true → i ∉ s.pool ∧ (e.tx i).kout = []) ∧
       (∀ a ∈ s.pool, a ∉ (e.block bi).txs → ∀ i ∈ (e.block bi).txs, i ∈ s.pool → [i, a].Sublist s.pool)
-  | .walk lh dest prune => (walk e s lh dest prune).2 = true ∧ dest ∈ e.blocks.map (·.1) ∧
-      ∀ i ∈ (walk e s lh dest prune).1.pool, i ∉ chainTxs e dest
+  | .walk lh dest prune => dest ∈ e.blocks.map (·.1) ∧
+      ((walk e s lh dest prune).2 = true → ∀ i ∈ (walk e s lh dest prune).1.pool, i ∉ chainTxs e dest)
 
 /-- `OpOK` for every operation of the history, each in the state it is applied to -/
 def HistOK (e : Env) (g : St) : St → List Op → Prop
@@ -2207,7 +2226,8 @@ private theorem readmit_inv (e : Env) (lh : Int) (C : St) (hfz : FrozenInv e C) 
     · exact Or.inr h
 
 private theorem inv_walk (e : Env) (g s : St) (lh : Int) (dest : Nat) (prune : Bool) (he : EnvOK e g) (h : Inv e g s)
-    (hop : OpOK e g s (.walk lh dest prune)) : Inv e g (walk e s lh dest prune).1 := by
+    (hop : (walk e s lh dest prune).2 = true ∧ dest ∈ e.blocks.map (·.1) ∧
+      ∀ i ∈ (walk e s lh dest prune).1.pool, i ∉ chainTxs e dest) : Inv e g (walk e s lh dest prune).1 := by
   obtain ⟨hok, hdest, hni⟩ := hop
   have hchain := he.chains _ h.known
   have hchd := he.chains _ hdest
@@ -2242,6 +2262,175 @@ private theorem inv_walk (e : Env) (g s : St) (lh : Int) (dest : Nat) (prune : B
   · rw [hpt]; exact hni
   · exact fun j hj => h.static j (hmem j hj)
 
+-- ------------------------------------------------------------------ a walk that fails
+
+/-- the node is exactly at block `p`: empty pool, tables of the canonical state -/
+private def At (e : Env) (g x : St) (p : Nat) : Prop :=
+  x.pointer = p ∧ p ∈ e.blocks.map (·.1) ∧ TRefines x (canon e g p) ∧ x.pool = []
+
+private theorem At.inv {e : Env} {g x : St} {p : Nat} (h : At e g x p) : Inv e g x := by
+  obtain ⟨h1, h2, h3, h4⟩ := h
+  refine ⟨by rw [h1]; exact h2, by rw [h4, h1]; exact h3, by rw [h4]; trivial, by rw [h4]; exact List.nodup_nil, ?_, ?_⟩
+  · intro i hi; rw [h4] at hi; cases hi
+  · intro i hi; rw [h4] at hi; cases hi
+
+private theorem at_undoBlock (e : Env) (g x : St) (p q : Nat) (prune : Bool) (he : EnvOK e g) (h : At e g x p)
+    (hpre : (e.block p).pre = some q) : At e g (undoBlock e x (e.block p) prune) q := by
+  obtain ⟨h1, h2, h3, h4⟩ := h
+  have hq : q ∈ e.blocks.map (·.1) := by
+    rcases he.parentKnown p h2 with hn | ⟨q', hq', hs⟩
+    · rw [hn] at hpre; cases hpre
+    · rw [hs] at hpre; injection hpre with hpre; rw [← hpre]; exact hq'
+  have hblk := blockValid_of_chain e g he.lower p q hpre (he.chains p h2)
+  have hKV := replayChain_KVInv e _ g (he.chains q hq) he.kv
+  rw [canon_child e g he.lower p q hpre] at h3
+  refine ⟨by rw [undoBlock_eq]; simp [hpre], hq, undoBlock_replayBlock e _ (e.block p) prune hblk hKV x h3, ?_⟩
+  rw [undoBlock_eq]
+  exact (undoTxs_frame e _ x).2.2.trans h4
+
+private theorem at_todoBlock (e : Env) (g x x' : St) (lh : Int) (p bi : Nat) (he : EnvOK e g) (h : At e g x p)
+    (hpre : (e.block bi).pre = some p) (hx : todoBlock e x lh (e.block bi) = some x') : At e g x' bi := by
+  obtain ⟨_, _, h3, h4⟩ := h
+  have hk := block_known_of_pre e bi (by rw [hpre]; simp)
+  obtain ⟨hx', _⟩ := todoBlock_eq e x x' lh _ hx
+  rw [hx']
+  refine ⟨he.blockId bi hk, hk, ?_, ?_⟩
+  · rw [canon_child e g he.lower bi p hpre]
+    exact replayBlock_trefines e _ x _ h3
+  · exact (replayTxs_frame e _ _ x).2.2.trans h4
+
+private theorem undoAll_at (e : Env) (g : St) (prune : Bool) (he : EnvOK e g) :
+    ∀ (undo : List Nat) (x : St) (p : Nat) (tail : List Nat), At e g x p →
+      ancestors e (e.blocks.length + 1) p = undo ++ tail → tail ≠ [] →
+      ∃ p', At e g (walk.undoAll e prune undo x).1 p' ∧
+        ((walk.undoAll e prune undo x).2 = true → ancestors e (e.blocks.length + 1) p' = tail) := by
+  intro undo
+  induction undo with
+  | nil => intro x p tail h hanc _; exact ⟨p, h, fun _ => hanc⟩
+  | cons u rest ih =>
+    intro x p tail h hanc htail
+    obtain ⟨r0, hr0⟩ := ancestors_head e e.blocks.length p
+    have hup : u = p := by
+      rw [hr0] at hanc
+      simp only [List.cons_append, List.cons.injEq] at hanc
+      exact hanc.1.symm
+    subst hup
+    have hne : rest ++ tail ≠ [] := by
+      intro hnil
+      exact htail (List.append_eq_nil_iff.mp hnil).2
+    obtain ⟨q, r', hq⟩ : ∃ q r', rest ++ tail = q :: r' := by
+      cases hrt : rest ++ tail with
+      | nil => exact absurd hrt hne
+      | cons q r' => exact ⟨q, r', rfl⟩
+    have hanc' : ancestors e (e.blocks.length + 1) u = [u] ++ q :: r' := by
+      rw [hanc]; simp only [List.cons_append, List.nil_append, List.cons.injEq, true_and]; exact hq
+    have hpre : (e.block u).pre = some q := by
+      have hl := ancestors_linked e (e.blocks.length + 1) u
+      rw [hanc'] at hl
+      exact hl.1
+    have hancq : ancestors e (e.blocks.length + 1) q = rest ++ tail := by
+      rw [hq]; exact (ancestors_tail_eq e he.lower u q [u] r' hanc').symm
+    have hdef : walk.undoAll e prune (u :: rest) x =
+        if (!prune && decide (((e.block u).height : Int) ≤ x.irrev)) = true then (x, false)
+        else walk.undoAll e prune rest (undoBlock e x (e.block u) prune) := by
+      rw [walk.undoAll]
+    rw [hdef]
+    by_cases hc : (!prune && decide (((e.block u).height : Int) ≤ x.irrev)) = true
+    · rw [if_pos hc]
+      exact ⟨u, h, fun hf => by cases hf⟩
+    · rw [if_neg hc]
+      exact ih _ q tail (at_undoBlock e g x u q prune he h hpre) hancq htail
+
+/-- the blocks of the list are chained by their parent links, starting from `p` -/
+private def FwdLinked (e : Env) : Nat → List Nat → Prop
+  | _, [] => True
+  | p, bi :: rest => (e.block bi).pre = some p ∧ FwdLinked e bi rest
+
+private theorem fwdLinked_of_linked (e : Env) (todo : List Nat) : ∀ (c : Nat) (r2 : List Nat),
+    Linked e (todo.reverse ++ c :: r2) → FwdLinked e c todo := by
+  induction todo with
+  | nil => intro _ _ _; trivial
+  | cons t rest ih =>
+    intro c r2 hl
+    rw [List.reverse_cons, List.append_assoc] at hl
+    simp only [List.cons_append, List.nil_append] at hl
+    exact ⟨linked_last_pre e rest.reverse t c r2 hl, ih t (c :: r2) hl⟩
+
+private theorem todoAll_at (e : Env) (g : St) (lh : Int) (he : EnvOK e g) :
+    ∀ (todo : List Nat) (x : St) (p : Nat), At e g x p → FwdLinked e p todo →
+      ∃ p', At e g (walk.todoAll e lh todo x).1 p' := by
+  intro todo
+  induction todo with
+  | nil => intro x p h _; exact ⟨p, h⟩
+  | cons bi rest ih =>
+    intro x p h hf
+    unfold walk.todoAll
+    cases hx : todoBlock e x lh (e.block bi) with
+    | none => exact ⟨p, h⟩
+    | some x' => exact ih x' bi (at_todoBlock e g x x' lh p bi he h hf.1 hx) hf.2
+
+/-- **a walk that FAILS keeps the invariant**: the node is left at the block it reached (an ancestor of the old tip if an
+undo was refused at the irreversible height, a block of the destination branch if a block was refused), with an empty
+pool and the tables of the canonical state of that block -/
+private theorem inv_walk_fail (e : Env) (g s : St) (lh : Int) (dest : Nat) (prune : Bool) (he : EnvOK e g)
+    (h : Inv e g s) (hdest : dest ∈ e.blocks.map (·.1)) (hfail : (walk e s lh dest prune).2 = false) :
+    Inv e g (walk e s lh dest prune).1 := by
+  have hchain := he.chains _ h.known
+  have hR := replayChain_KVInv e _ g hchain he.kv
+  have hroll := rollback_applyPool e s.pool _ h.pool hR s h.refines
+  -- the two ancestor lists meet
+  obtain ⟨_, _, hsplit⟩ := undoTodo_split e s.pointer dest he.lower
+  have hcommon : ∃ lca r1 r2,
+      ancestors e (e.blocks.length + 1) s.pointer = (undoTodo e s.pointer dest).1 ++ lca :: r1 ∧
+      ancestors e (e.blocks.length + 1) dest = (undoTodo e s.pointer dest).2.reverse ++ lca :: r2 := by
+    rcases hsplit with ⟨_, _, hdisj⟩ | ⟨lca, r1, r2, h1, h2, _⟩
+    · exfalso
+      have hone := he.oneRoot s.pointer h.known dest hdest
+      obtain ⟨rc, hrc⟩ := ancestors_head e e.blocks.length s.pointer
+      cases hl : (ancestors e (e.blocks.length + 1) s.pointer).getLast? with
+      | none => rw [hrc] at hl; simp at hl
+      | some x =>
+        have h1 : x ∈ ancestors e (e.blocks.length + 1) s.pointer := List.mem_of_getLast? hl
+        rw [hone] at hl
+        exact hdisj x h1 (List.mem_of_getLast? hl)
+    · exact ⟨lca, r1, r2, h1, h2⟩
+  obtain ⟨lca, r1, r2, hca, hda⟩ := hcommon
+  unfold walk at hfail ⊢
+  simp only at hfail ⊢
+  have h0 : At e g ({ (s.pool.reverse.foldl (fun st i => undoTx e st (e.tx i)) s) with pool := [] } : St) s.pointer :=
+    ⟨foldl_undoTx_pointer e s.pool.reverse s, h.known,
+      hroll.of_tables ⟨rfl, rfl, rfl, rfl⟩ ⟨rfl, rfl, rfl, rfl⟩, rfl⟩
+  generalize hs0 : ({ (s.pool.reverse.foldl (fun st i => undoTx e st (e.tx i)) s) with pool := [] } : St) = s0
+    at h0 hfail ⊢
+  obtain ⟨p1, hu1, hu2⟩ := undoAll_at e g prune he (undoTodo e s.pointer dest).1 s0 s.pointer (lca :: r1) h0 hca
+    (by simp)
+  generalize hua : walk.undoAll e prune (undoTodo e s.pointer dest).1 s0 = ua at hu1 hu2 hfail ⊢
+  obtain ⟨s1, ok1⟩ := ua
+  simp only at hu1 hu2
+  by_cases hok1 : ok1 = true
+  · simp only [hok1, Bool.not_true, Bool.false_eq_true, ↓reduceIte] at hfail ⊢
+    have hp1 : p1 = lca := by
+      have := hu2 hok1
+      obtain ⟨r, hr⟩ := ancestors_head e e.blocks.length p1
+      rw [hr] at this
+      simp only [List.cons.injEq] at this
+      exact this.1
+    rw [hp1] at hu1
+    have hfl : FwdLinked e lca (undoTodo e s.pointer dest).2 := by
+      apply fwdLinked_of_linked e _ lca r2
+      rw [← hda]
+      exact ancestors_linked e _ dest
+    obtain ⟨p2, ht⟩ := todoAll_at e g lh he (undoTodo e s.pointer dest).2 s1 lca hu1 hfl
+    generalize hta : walk.todoAll e lh (undoTodo e s.pointer dest).2 s1 = ta at ht hfail ⊢
+    obtain ⟨s2, ok2⟩ := ta
+    simp only at ht
+    by_cases hok2 : ok2 = true
+    · simp [hok2] at hfail
+    · simp only [hok2, Bool.not_false, ↓reduceIte]
+      exact ht.inv
+  · simp only [hok1, Bool.not_false, ↓reduceIte]
+    exact hu1.inv
+
 /-- one operation keeps the invariant -/
 theorem step_invariant (e : Env) (g s : St) (op : Op) (he : EnvOK e g) (h : Inv e g s) (hop : OpOK e g s op) :
     Inv e g (step e s op) := by
@@ -2249,7 +2438,11 @@ theorem step_invariant (e : Env) (g s : St) (op : Op) (he : EnvOK e g) (h : Inv 
   | submit lh i => exact inv_submit e g s lh i he h hop
   | play lh bi => exact inv_play e g s lh bi he h
   | playMiner lh bi => exact inv_playMiner e g s lh bi he h hop
-  | walk lh dest prune => exact inv_walk e g s lh dest prune he h hop
+  | walk lh dest prune =>
+    obtain ⟨hdest, hni⟩ := hop
+    by_cases hok : (walk e s lh dest prune).2 = true
+    · exact inv_walk e g s lh dest prune he h ⟨hok, hdest, hni hok⟩
+    · exact inv_walk_fail e g s lh dest prune he h hdest (by simpa using hok)
 
 /-- **the closing induction: after ANY history the node is on "canonical state of its tip + pool".** Environment as in
 `EnvOK`; start state with the invariant (`genesis_inv`: the canonical state of a registered block with an empty pool —
@@ -2326,8 +2519,9 @@ instance decHistOK (e : Env) (g : St) : (s : St) → (ops : List Op) → Decidab
 -- a child of block 2. The history: five submissions (one more is refused: already pending), the peer's block 2 with a
 -- non-empty pool (two evictions, one pending member confirmed, two survivors), a refused block (3: not a child of the
 -- tip), a submission on top of the survivors, a walk across the fork to block 3 (which confirms 21 and 22: 22 is not
--- re-admitted), a walk back to block 2, a refused submission (24: its input is spent), and the node's own block 4 packing
--- the whole pool.
+-- re-admitted), a walk back to block 2, a refused submission (24: its input is spent), the node's own block 4 packing
+-- the whole pool, a walk to block 3 that FAILS (at ledger height -1 the inputs of block 3 count as frozen: the node is
+-- left at block 1, the common ancestor) and a walk back to block 4.
 private def hsEnv : Env := {
   txs := prEnv.txs ++ [
     (27, ⟨27, false, [⟨23, 0, "u3", 4, 0, false⟩], [⟨"u7", 3, 0⟩, ⟨"$", 1, 0⟩], [], []⟩),
@@ -2337,11 +2531,12 @@ private def hsEnv : Env := {
 private def hsS0 : St := { canon hsEnv prG 1 with pool := [], pointer := 1 }
 private def hsOps : List Op := [
   .submit 0 21, .submit 0 22, .submit 0 21, .submit 0 23, .submit 0 24, .submit 0 26,
-  .play 0 2, .play 0 3, .submit 0 27, .walk 0 3, .walk 0 2, .submit 0 24, .playMiner 0 4]
+  .play 0 2, .play 0 3, .submit 0 27, .walk 0 3, .walk 0 2, .submit 0 24, .playMiner 0 4,
+  .walk (-1) 3, .walk 0 4]
 
 private theorem hsEnvOK : EnvOK hsEnv prG := by
-  refine ⟨parentLower_of_blocks _ (by decide), by decide, ?_, by decide, by decide, KVInv_empty _ _ rfl rfl,
-    frozenInv_of_rows _ _ (by decide)⟩
+  refine ⟨parentLower_of_blocks _ (by decide), by decide, by decide, by decide, ?_, by decide, by decide,
+    KVInv_empty _ _ rfl rfl, frozenInv_of_rows _ _ (by decide)⟩
   intro bi hbi
   apply chainValid_of_check _ 0
   revert bi hbi
@@ -2357,7 +2552,9 @@ example :
     s.pointer = 4 ∧ s.pool = [] ∧ s.total = c.total ∧ (∀ k ∈ ["k", "j"], lookup s.ZU k = lookup c.ZU k) ∧
     (∀ k ∈ s.U.map (·.1) ++ c.U.map (·.1), lookup s.U k = lookup c.U k) ∧
     (run hsEnv hsS0 (hsOps.take 7)).pool = [22, 23] ∧ (run hsEnv hsS0 (hsOps.take 10)).pool = [23, 27] ∧
-    (run hsEnv hsS0 (hsOps.take 10)).pointer = 3 := by decide
+    (run hsEnv hsS0 (hsOps.take 10)).pointer = 3 ∧
+    (walk hsEnv (run hsEnv hsS0 (hsOps.take 13)) (-1) 3 false).2 = false ∧
+    (run hsEnv hsS0 (hsOps.take 14)).pointer = 1 := by decide
 
 -- ================================================================== is an accepted block replayable? — not always
 
